@@ -22,13 +22,19 @@ A module may be given its own timestep.  Its step index (`self.ti`) and the simu
 clocks.  The simulation's index advances at the END of each simulation step, so a module that makes `r ≥ 1` steps per
 simulation step sees the simulation index `0` during its step `0` and the index `k ≥ 1` during its steps
 `r(k-1)+1 … rk`; a module that makes one step every `c ≥ 1` simulation steps makes its step `j` while the simulation is
-at step `c·j`.  (Both relations are compared with the real loop on every run: driver ops `finer` / `coarser`.) -/
+at step `c·j` (and its index reads `j` from simulation step `c(j-1)+1` on).  (These relations are compared with the real loop on every run: driver ops `finer` / `coarser`.) -/
 
 /-- first and last module step index seen while the simulation index is `k` (module `r` times finer) -/
 def moduleIndexRange (r k : Nat) : Nat × Nat :=
   if k = 0 then (0, 0) else (r * (k - 1) + 1, r * k)
 
-/-- simulation index during step `j` of a module `c` times coarser than the simulation -/
+/-- simulation index during the module's OWN step `j` (its `step_state` / transmission), module `c` times coarser -/
 def simIndexCoarse (c j : Nat) : Nat := c * j
+
+/-- first and last simulation index at which the index of a module `c` times coarser READS `j`: the module's index advances
+    at the end of its own step, so calls made on the simulation's clock in between (`People.step_die` → `disease.step_die`)
+    see `j` during the simulation steps `c(j-1)+1 … cj` -/
+def simIndexRangeCoarse (c j : Nat) : Nat × Nat :=
+  if j = 0 then (0, 0) else (c * (j - 1) + 1, c * j)
 
 end StarsimModel.TimerOps
